@@ -4,18 +4,24 @@ package parser
 // or undefined symbol or contains a nonterminal that derives no terminal string (C12).
 // The AST is built directly; every right-hand-side symbol is a solver choice over the pool
 // {token A, token B, S, N, %type-only T, undeclared U}.
-func VerifUsable(R, maxLen int) {
+func VerifUsable(R, maxLen, startMode int) {
 	pool := []string{"A", "B", "S", "N", "T", "U"}
+	startName := "S"
+	if startMode == 1 {
+		// no %start directive: the start symbol is the one named "start"
+		startName = "start"
+		pool[2] = "start"
+	}
 	declT := verifBool("declareT")
 	decl := &DeclareNode{
 		TokenDefList: []TokenDef{{IdentifyList: []Idendity{
 			{Name: "A", IDTyp: TERMID}, {Name: "B", IDTyp: TERMID, Value: 7}}}},
-		StartSym: "S",
+		StartSym: startName,
 	}
 	if declT {
 		decl.TypeDefList = []TypeDef{{Tag: "t", IdName: "T"}}
 	}
-	lhsNames := []string{"S", "N", "T"}
+	lhsNames := []string{startName, "N", "T"}
 	lhsOf := make([]int, R)
 	rhsOf := make([][]int, R)
 	var defs []RuleDef
